@@ -294,7 +294,9 @@ def run_shape(case):
     facts['issubclass'] = issubclass(cfgd, orig) if inspect.isclass(cfgd) else None
     meta_of = cfgd if inspect.isclass(cfgd) else orig
     facts['name_doc_module'] = (meta_of.__name__ == orig.__name__ and meta_of.__doc__ == orig.__doc__ and
-                                meta_of.__module__ == orig.__module__)
+                                meta_of.__module__ == orig.__module__ and
+                                # the probe classes are local to a function: their qualified name is not their name
+                                getattr(meta_of, '__qualname__', None) == getattr(orig, '__qualname__', None))
     if api in ('register', 'external'):
       after = dict(vars(orig))
       facts['class_dict_unchanged'] = set(before) == set(after) and all(before[k] is after[k] for k in before)
